@@ -71,6 +71,34 @@ def parseKeys (j : Json) : Except String Keys :=
       let ks ← (← Driver.getArr j "multi").toList.mapM parsePath
       return .multi ks
 
+/-- a path element that may be a tuple of ints: `{"t": [i, j, …]}` -/
+def parseXKey (j : Json) : Except String XKey :=
+  match j.getObjVal? "t" with
+  | .ok v => do return .tup (← (← v.getArr?).toList.mapM (·.getInt?))
+  | .error _ => do return .k (← parsePKey j)
+
+def parseXPath (j : Json) : Except String (List XKey) := do
+  (← j.getArr?).toList.mapM parseXKey
+
+def parseKeysX (j : Json) : Except String KeysX :=
+  match j with
+  | .str "empty" => .ok .empty
+  | _ =>
+    match j.getObjVal? "path" with
+    | .ok v => do return .path (← parseXPath v)
+    | .error _ => do
+      let ks ← (← Driver.getArr j "multi").toList.mapM parseXPath
+      return .multi ks
+
+def xpathPlain (p : List XKey) : Option Path :=
+  p.mapM fun x => match x with | .k k => some k | .tup _ => none
+
+/-- the tuple-free form of `keys`, if it has one: then the functions the C18 theorems are about are run -/
+def keysPlain : KeysX → Option Keys
+  | .path p => (xpathPlain p).map .path
+  | .empty => some .empty
+  | .multi ks => (ks.mapM xpathPlain).map .multi
+
 def parseRefs (j : Json) (k : String) : Except String (List Ref) := do
   (← Driver.getArr j k).toList.mapM (·.getNat?)
 
@@ -213,9 +241,11 @@ def runOp (strict : Bool) (st : St) (j : Json) : Except String (St × Json) := d
     | none => return skipped
   match op with
   | "get" | "getd" =>
-    let keys ← parseKeys (← j.getObjVal? "keys")
+    let keysX ← parseKeysX (← j.getObjVal? "keys")
     let sentinel : GetResV := .one (.obj (h.size + 1000000))
-    let r := if op == "get" then getItemV h root keys else getDV h root keys sentinel
+    let r := match keysPlain keysX with
+      | some keys => if op == "get" then getItemV h root keys else getDV h root keys sentinel
+      | none => if op == "get" then getItemVX h root keysX else getDVX h root keysX sentinel
     let tag := s!"view@{st.roots.size}"
     let o := match r with
       | .error e => Json.mkObj [("err", Driver.errJson e)]
@@ -226,19 +256,23 @@ def runOp (strict : Bool) (st : St) (j : Json) : Except String (St × Json) := d
           ("many", Json.arr (ls.zipIdx.map fun (l, i) => locJson h s!"{tag}.{i}" l).toArray)]
     return ({ st with roots := st.roots.push none }, o)
   | "set" =>
-    let keys ← parseKeys (← j.getObjVal? "keys")
+    let keysX ← parseKeysX (← j.getObjVal? "keys")
     let value ← Driver.getNat j "value"
     let inPlace ← Driver.getBool j "in_place"
-    let r := setItem strict inPlace h root keys value
+    let r := match keysPlain keysX with
+      | some keys => setItem strict inPlace h root keys value
+      | none => setItemX strict inPlace h root keysX value
     let root' := match r.2 with | .ok x => some x | .error _ => none
     return ({ heap := r.1, roots := st.roots.push root' }, resObs h r.1 root r)
   | "update" =>
     let pairs ← (← Driver.getArr j "pairs").toList.mapM fun e => do
       let a ← e.getArr?
       match a.toList with
-      | [p, v] => do return ((← parsePath p), (← v.getNat?))
+      | [p, v] => do return ((← parseXPath p), (← v.getNat?))
       | _ => throw "bad pair"
-    let r := copyAndUpdate strict h root pairs
+    let r := match pairs.mapM (fun pv => (xpathPlain pv.1).map fun p => (p, pv.2)) with
+      | some plain => copyAndUpdate strict h root plain
+      | none => copyAndUpdateX strict h root pairs
     let root' := match r.2 with | .ok x => some x | .error _ => none
     return ({ heap := r.1, roots := st.roots.push root' }, resObs h r.1 root r)
   | "items" =>
